@@ -18,7 +18,7 @@ CLAIMS = {
    "Trusted: go/ssa, call graph; the audited rows of the tables. Not decided: the arithmetic before*10000+i+1 on run-time values, the filtering behaviour of the resulting ACLs.",
    "DESIGN.md section 8.8"),
  "C10": ("other",
-   "call-graph reachability (VTA) from every T.GetChanges to file/environment/status readers; constant inspection of the PAN-OS configuration request; guard-set comparison and must-call analysis on go/ssa for the name generators, left-over reuse and clean-up phases",
+   "call-graph reachability (VTA) from every T.GetChanges to file/environment/status readers; constant inspection of the PAN-OS configuration request; guard-set comparison and must-call analysis on go/ssa for the name generators, left-over reuse and clean-up phases; command-provenance evaluation of every save / commit text against audited templates",
    "Does NOT decide that a resumed approve converges (needs the device state after every prefix of a script, i.e. execution on a device model). Decides the mechanisms the property names: every planner decision is recomputed from the two configurations only (nothing reachable from GetChanges reads files, environment or earlier status); PAN-OS reads the candidate configuration (action=get), so uncommitted edits of an interrupted run are seen; fresh names/ids are tested against the names on the device, identical left-over groups are taken over only when not already needed, deletion candidates are the not-needed objects with generated names, each under its audited conditions; the clean-up phases (removeUnusedServices/Groups, removeUnneededObjects, deleteUnused) run on every path of the planner.",
    "Trusted: go/ssa, VTA call graph; the audited rows of tables/guards.tsv and tables/phases.tsv.",
    "DESIGN.md section 8.8"),
@@ -28,7 +28,7 @@ CLAIMS = {
    "Trusted: go/ssa + VTA call graph soundness for this module (no reflect/unsafe/cgo/linkname, asserted), the ~20 allow-listed commands are read-only, the predicates inside the checks are the right ones.",
    "DESIGN.md section 4 C06"),
  "C11": ("proof",
-   "call-graph reachability (VTA) with mode-gated call sites removed, dominance on go/ssa, inter-procedural command-provenance evaluation against a read-only allow-list",
+   "call-graph reachability (VTA) with mode-gated call sites removed, dominance on go/ssa, inter-procedural command-provenance evaluation against a read-only allow-list; audited table of the value-taking command-line options of the front-ends",
    "Proof of the structural statement: no ApplyCommands implementation is reachable on the compare path; every path to one lies on the false edge of the compare flag, which callers bind to --compare / the verb 'compare'; every command pattern that can reach a device primitive outside the apply region is in the frozen read-only allow-list (the ASA terminal-width trio being the property's documented exception); the one thing typed outside that list, the password of the login dialogue, is typed only at the audited sites under the audited conditions (the device has asked for the login / enable password), so it cannot be taken as the answer to another question. All obligations are discharged on every run.",
    "Trusted: call-graph soundness (asserted: no reflect/unsafe/cgo/linkname), read-only-ness of the allow-listed commands themselves; the audited password-prompt conditions of tables/guards.tsv (R11.p).",
    "DESIGN.md section 4 C11"),
